@@ -57,6 +57,29 @@ def block_after(body, rx, item):
     return body[i:]
 
 
+def rollback_order(fn, name, loops):
+    """loops: [(rstep, regex of the `for` head, regex the loop body must contain)] inside `let rollback_indexes = || {..}`."""
+    item = '%s_impl.rollback_indexes' % name
+    blk = block_after(fn, r'let\s+rollback_indexes\s*=\s*\|\|', item)
+    found = []
+    for tag, head, must in loops:
+        m = re.search(head, blk, re.S)
+        if not m:
+            lost(G, '%s.%s' % (item, tag), head)
+            continue
+        body = block_after(blk[m.start():], head, '%s.%s.body' % (item, tag))
+        if not re.search(must, body, re.S):
+            lost(G, '%s.%s.body' % (item, tag), must)
+            continue
+        found.append((m.start(), tag))
+    found.sort()
+    nloops = len(re.findall(r'\bfor\b', blk))
+    if nloops != len(loops):
+        lost(G, '%s: %d loops, %d known' % (item, nloops, len(loops)))
+    return 'Definition %s_rollback_order : list rstep := [%s].  (* Collection::%s_impl, closure rollback_indexes *)\n' % (
+        name, '; '.join(t for _, t in found), name)
+
+
 def generate(repo):
     src = strip_rust_comments(read(repo, COLL))
     dbs = strip_rust_comments(read(repo, DB))
@@ -102,8 +125,35 @@ def generate(repo):
     m = re.search(r'self\s*\.\s*record_mutation_intent\s*\(\s*id\s*,\s*Some\(&old_doc\)\s*,\s*Some\(&doc\)\s*\)', upd)
     out.append('Definition update_intent_has_both_images : bool := %s.\n' % ('true' if m else 'false'))
 
+    # the rollback closure of update_impl: the ORDER of its loops (undo-what-was-inserted must precede
+    # restore-what-was-removed for the id-keyed indexes: old and new entry share the document id) and whether
+    # `*_inserted` is registered before the fallible insert is attempted
+    out.append(rollback_order(upd, 'update', [
+        ('RUndoBm25', r'for\s*\(\s*k\s*,\s*v\s*\)\s*in\s+bm25_inserted\b', r'k\s*\.\s*remove\s*\('),
+        ('RUndoHnsw', r'for\s*\(\s*k\s*,\s*v\s*\)\s*in\s+hnsw_inserted\b', r'k\s*\.\s*remove\s*\('),
+        ('RRevBtree', r'for\s*\(\s*k\s*,\s*v\s*\)\s*in\s+btree_updated\b', r'k\s*\.\s*update\s*\(\s*id\s*,\s*&v\.1\s*,\s*&v\.0'),
+        ('RRestoreBm25', r'for\s*\(\s*k\s*,\s*v\s*\)\s*in\s+bm25_removed\b', r'k\s*\.\s*insert\s*\('),
+        ('RRestoreHnsw', r'for\s*\(\s*k\s*,\s*v\s*\)\s*in\s+hnsw_removed\b', r'k\s*\.\s*insert\s*\('),
+    ]))
+    for kind, reg, ins in (('bm25', r'bm25_inserted\s*\.\s*insert\s*\(', r'index\s*\.\s*insert\s*\(\s*id\s*,\s*&text\s*,\s*now_ms\s*\)\s*\?'),
+                           ('hnsw', r'hnsw_inserted\s*\.\s*insert\s*\(', r'index\s*\.\s*insert\s*\(\s*id\s*,\s*vector\.into_owned\(\)\s*,\s*now_ms\s*\)\s*\?')):
+        o = order(upd, [('RUndoBtree', reg), ('RRevBtree', ins)], 'update_impl.%s_registration' % kind)
+        out.append('Definition update_%s_inserted_registered_before_insert : bool := %s.\n' % (kind, 'true' if o == ['RUndoBtree', 'RRevBtree'] else 'false'))
+        o = order(add, [('RUndoBtree', reg), ('RRevBtree', ins)], 'add_impl.%s_registration' % kind)
+        out.append('Definition add_%s_inserted_registered_before_insert : bool := %s.\n' % (kind, 'true' if o == ['RUndoBtree', 'RRevBtree'] else 'false'))
+    out.append(rollback_order(add, 'add', [
+        ('RUndoBtree', r'for\s*\(\s*k\s*,\s*v\s*\)\s*in\s+btree_inserted\b', r'k\s*\.\s*remove\s*\('),
+        ('RUndoBm25', r'for\s*\(\s*k\s*,\s*v\s*\)\s*in\s+bm25_inserted\b', r'k\s*\.\s*remove\s*\('),
+        ('RUndoHnsw', r'for\s*\(\s*k\s*,\s*v\s*\)\s*in\s+hnsw_inserted\b', r'k\s*\.\s*remove\s*\('),
+    ]))
+
     # ---------------------------------------------------------------- remove
     rem = fn_body(src, 'remove_impl', G)
+    out.append(rollback_order(rem, 'remove', [
+        ('RRestoreBtree', r'for\s*\(\s*index\s*,\s*value\s*\)\s*in\s+btree_removed\b', r'index\s*\.\s*insert\s*\('),
+        ('RRestoreBm25', r'for\s*\(\s*index\s*,\s*\(\s*id\s*,\s*text\s*\)\s*\)\s*in\s+bm25_removed\b', r'index\s*\.\s*insert\s*\('),
+        ('RRestoreHnsw', r'for\s*\(\s*index\s*,\s*\(\s*id\s*,\s*vector\s*\)\s*\)\s*in\s+hnsw_removed\b', r'index\s*\.\s*insert\s*\('),
+    ]))
     out.append(coq_list('remove_order', order(rem, [
         ('TIntent', r'self\s*\.\s*record_mutation_intent\s*\('),
         ('TIndexRemove', r'index\s*\.\s*remove\s*\(\s*id\s*,'),
